@@ -192,6 +192,15 @@ func runC12(ctx *Ctx) *Report {
 			mjobs = append(mjobs, c12job{entries[i%len(entries)], hx(d)})
 		}
 	}
+	for nbad := 3; nbad <= 12; nbad += 3 {
+		var sb strings.Builder
+		for i := 0; i < nbad; i++ {
+			sb.WriteString("- r\n  x\n- s\n  -\n- t\n        - deep\n")
+		}
+		for _, e := range []string{"text", "json", "walk", "dry", "mkdir", "verify"} {
+			mjobs = append(mjobs, c12job{e, hxs(sb.String())})
+		}
+	}
 	nw := ctx.Workers / 2
 	if nw < 1 {
 		nw = 1
